@@ -1,5 +1,46 @@
 mod c04;
 mod common;
+mod gen;
+mod inputs;
+mod registry;
+mod universe;
+
+use common::*;
+use gen::{run_type, Cx, Mode};
+use registry::*;
+
+fn run_generic(mode: Mode, args: &Args, prefix: &str, rule: &str) {
+	quiet_panics();
+	let mut cx = Cx {
+		mode,
+		rng: Rng::new(args.seed ^ (mode as u64) << 32),
+		thorough: args.thorough,
+		cases: {
+			let mut c = Cases::new("Require Import Scale.Bytes Scale.Hex Scale.Codec Scale.CorrGen.", "gcase", "g_check");
+			if args.thorough {
+				c.max_total = 160 << 20;
+				c.max_case = 3 << 20;
+			}
+			c
+		},
+		oracle: Oracle::new(),
+		stats: Stats::new(),
+		only: args.only.as_ref().map(|l| l.split('\t').map(|s| s.to_string()).collect()),
+		ntypes: 0,
+	};
+	{
+		let cx = &mut cx;
+		for_all_types!(run_type, cx);
+	}
+	cx.stats.add("registry_types", cx.ntypes as u64);
+	cx.stats.add("skipped/case-too-big-for-budget", cx.cases.skipped_big as u64);
+	if args.thorough {
+		// nothing: budget set below
+	}
+	cx.cases.write(&args.out, prefix, args.shards);
+	cx.oracle.write(&args.out);
+	cx.stats.write(&args.out, cx.cases.len(), cx.cases.nontrivial, cx.cases.dups, cx.oracle.checks, rule);
+}
 
 fn main() {
 	let args: Vec<String> = std::env::args().collect();
@@ -7,9 +48,21 @@ fn main() {
 		eprintln!("usage: harness <property> --seed N --tier quick|thorough --out DIR [--only LINE]");
 		std::process::exit(2);
 	}
-	let a = common::Args::parse(&args[2..]);
+	let a = Args::parse(&args[2..]);
+	let gen_rule = "for each registry type (see distribution.registry_types): seeded boundary-biased values (lengths 0,1,2,63..65,16383..16385 and around multiples of 16384/size_of::<T>, wrapped deques, bit sequences with head offsets, class boundaries of every integer width) and, for decode-driven properties, each valid encoding plus structured mutations (bit flip, boundary byte, truncation, extension, count tampering at the front and inside, splice, count+-1, invalid utf8/tag bytes) and random strings; non-trivial = non-empty input; distinct by hash of the whole case term (type, input, layers, implementation result)";
 	match args[1].as_str() {
 		"c04" => c04::run(&a),
+		"c01" => run_generic(Mode::C01, &a, "c01", gen_rule),
+		"c02" => run_generic(Mode::C02, &a, "c02", gen_rule),
+		"c03" => run_generic(Mode::C03, &a, "c03", gen_rule),
+		"c07" => run_generic(Mode::C07, &a, "c07", gen_rule),
+		"c08" => run_generic(Mode::C08, &a, "c08", gen_rule),
+		"c09" => run_generic(Mode::C09, &a, "c09", gen_rule),
+		"c11" => run_generic(Mode::C11, &a, "c11", gen_rule),
+		"c12" => run_generic(Mode::C12, &a, "c12", gen_rule),
+		"c14" => run_generic(Mode::C14, &a, "c14", gen_rule),
+		"c18" => run_generic(Mode::C18, &a, "c18", gen_rule),
+		"c19" => run_generic(Mode::C19, &a, "c19", gen_rule),
 		p => {
 			eprintln!("unknown property {p}");
 			std::process::exit(2);
